@@ -23,6 +23,7 @@ Inductive kcond := CParamNe (i : nat) (z : Z) | CParamEq (i : nat) (z : Z) | COt
 Inductive lk :=
 | KOnce (ctl fn : string)
 | KLock (m : string) | KUnlock (m : string) | KMutexInit (m : string)
+| KMutexType (attr ty : string)             (* pthread_mutexattr_settype(&attr, ty) *)
 | KAtfork (prepare parent child : string)
 | KListOp (op lst : string)
 | KCall (f : string) (args : list karg)
@@ -53,6 +54,7 @@ Fixpoint lk_eqb (a b : lk) {struct a} : bool :=
   match a, b with
   | KOnce c f, KOnce c' f' => String.eqb c c' && String.eqb f f'
   | KLock m, KLock m' | KUnlock m, KUnlock m' | KMutexInit m, KMutexInit m' => String.eqb m m'
+  | KMutexType a t, KMutexType a' t' => String.eqb a a' && String.eqb t t'
   | KAtfork p q r, KAtfork p' q' r' => String.eqb p p' && String.eqb q q' && String.eqb r r'
   | KListOp o l, KListOp o' l' => String.eqb o o' && String.eqb l l'
   | KCall f args, KCall f' args' => String.eqb f f' && list_eqb karg_eqb args args'
@@ -73,6 +75,7 @@ Section LkInd.
   Hypothesis Hlock : forall m, P (KLock m).
   Hypothesis Hunlock : forall m, P (KUnlock m).
   Hypothesis Hminit : forall m, P (KMutexInit m).
+  Hypothesis Hmtype : forall a t, P (KMutexType a t).
   Hypothesis Hatfork : forall a b c, P (KAtfork a b c).
   Hypothesis Hlist : forall o l, P (KListOp o l).
   Hypothesis Hcall : forall f a, P (KCall f a).
@@ -91,6 +94,7 @@ Section LkInd.
         match l with [] => Forall_nil P | x :: l' => Forall_cons x (lk_ind' x) (all l') end in
     match a with
     | KOnce c f => Honce c f | KLock m => Hlock m | KUnlock m => Hunlock m | KMutexInit m => Hminit m
+    | KMutexType a t => Hmtype a t
     | KAtfork a b c => Hatfork a b c | KListOp o l => Hlist o l | KCall f a => Hcall f a | KExt f => Hext f
     | KGlobal g f w => Hglobal g f w
     | KIf c t e => Hif c t e (all t) (all e)
@@ -169,7 +173,8 @@ Definition norm (l : list lk) : list lk := flat_map norm1 l.
 Definition M := "snoopy_tsrm_threadRepo_mutex".
 Definition R := "snoopy_tsrm_threadRepo".
 Definition traversal : lk :=
-  KLoop [KListOp "fetchNextNode" R] [KIf COther [KContinue] []; KIf COther [KGoto "FOUND"] []].
+  KLoop [KListOp "fetchNextNode" R] [KIf COther [KContinue] []; KIf COther [KBreak] []].
+(* `goto FOUND;` with `FOUND:` right behind the loop and `break;` are the same exit: the translator writes KBreak for both *)
 
 Definition expected_core : list (string * nat * list lk) :=
   [ ("snoopy_tsrm_ctor", 0,
@@ -181,11 +186,11 @@ Definition expected_core : list (string * nat * list lk) :=
      [KCall "snoopy_tsrm_getCurrentThreadRepoEntry" []; KIf COther [KReturn] [];
       KLock M; KListOp "remove" R; KUnlock M; KReturn]);
     ("snoopy_tsrm_doesThreadRepoEntryExist", 2,
-     [KIf (CParamNe 1 1) [KLock M] []; traversal; KLabel "FOUND"; KIf (CParamNe 1 1) [KUnlock M] []; KReturn]);
+     [KIf (CParamNe 1 1) [KLock M] []; traversal; KIf (CParamNe 1 1) [KUnlock M] []; KReturn]);
     ("snoopy_tsrm_createNewThreadData", 1, [KReturn]);
     ("snoopy_tsrm_getCurrentThreadId", 0, [KReturn]);
     ("snoopy_tsrm_getCurrentThreadRepoEntry", 0,
-     [KCall "snoopy_tsrm_getCurrentThreadId" []; KLock M; traversal; KLabel "FOUND"; KUnlock M; KReturn]);
+     [KCall "snoopy_tsrm_getCurrentThreadId" []; KLock M; traversal; KUnlock M; KReturn]);
     ("snoopy_tsrm_getCurrentThreadData", 0,
      [KCall "snoopy_tsrm_getCurrentThreadRepoEntry" []; KIf COther [KReturn] []; KReturn]);
     ("snoopy_tsrm_get_configuration", 0, [KCall "snoopy_tsrm_getCurrentThreadData" []; KReturn]);
@@ -211,8 +216,8 @@ Definition atfork_of (fns : list lkfn) : option (option (string * string * strin
   match find_fn fns "snoopy_tsrm_init" with
   | Some f =>
     match norm (lk_body f) with
-    | [KMutexInit m] => if String.eqb m M then Some None else None
-    | [KMutexInit m; KAtfork p a c] => if String.eqb m M then Some (Some (p, a, c)) else None
+    | [KMutexType _ _; KMutexInit m] => if String.eqb m M then Some None else None
+    | [KMutexType _ _; KMutexInit m; KAtfork p a c] => if String.eqb m M then Some (Some (p, a, c)) else None
     | _ => None
     end
   | None => None
@@ -230,8 +235,18 @@ Definition is_load_init (fns : list lkfn) (name : string) : bool :=
   end.
 Definition preinit_of (fns : list lkfn) (ctors : list string) : bool := existsb (is_load_init fns) ctors.
 
+(** optional guards: a libc function that takes a libc-internal lock, called with the repository mutex held and nothing else
+    (the fork handlers hold that mutex across fork(), so no thread is inside the libc function on the library's behalf at that instant) *)
+Definition libc_guards : list (string * string) := [("snoopy_tsrm_localtime_r", "localtime_r")].
+Definition is_libc_guard (fns : list lkfn) (name : string) : bool :=
+  match find (fun g => String.eqb (fst g) name) libc_guards, find_fn fns name with
+  | Some (_, libc), Some f => lks_eqb (norm (lk_body f)) [KLock M; KExt libc; KUnlock M; KReturn]
+  | _, _ => false
+  end.
+Definition guard_names (fns : list lkfn) : list string := filter (is_libc_guard fns) (map fst libc_guards).
+
 Definition known_names (fns : list lkfn) (ctors : list string) : list string :=
-  map (fun e => fst (fst e)) expected_core ++ ["snoopy_tsrm_init"] ++ handler_names fns ++ filter (is_load_init fns) ctors.
+  map (fun e => fst (fst e)) expected_core ++ ["snoopy_tsrm_init"] ++ handler_names fns ++ filter (is_load_init fns) ctors ++ guard_names fns.
 
 (** every expected function is present and equal; snoopy_tsrm_init has one of its two shapes; no further function
     (but a load-time constructor that only performs the pthread_once call) *)
@@ -301,7 +316,7 @@ Fixpoint disc (fuel : nat) (fns : list lkfn) (args : list karg) (d0 : nat) (dl :
           | None => None
           end in
       match s with
-      | KOnce _ _ | KExt _ | KMutexInit _ | KAtfork _ _ _ | KLabel _ => continue_with d 0
+      | KOnce _ _ | KExt _ | KMutexInit _ | KMutexType _ _ | KAtfork _ _ _ | KLabel _ => continue_with d 0
       | KLock m => if String.eqb m M then continue_with (S d) 0 else None
       | KUnlock m => if String.eqb m M then match d with S d' => continue_with d' 0 | O => None end else None
       | KListOp _ l => if String.eqb l R then continue_with d (match d with O => 1 | _ => 0 end) else None
@@ -370,7 +385,7 @@ Definition disc_fn (fns : list lkfn) (name : string) : option (nat * nat) :=
   end.
 
 Definition discipline_ok (fns : list lkfn) : bool :=
-  forallb (fun n => match disc_fn fns n with Some (0, 0) => true | _ => false end) api_fns.
+  forallb (fun n => match disc_fn fns n with Some (0, 0) => true | _ => false end) (api_fns ++ guard_names fns).
 
 (** ** linearisation of one wrapped call (the lone-run path), for comparison with the labels of the model *)
 Definition is_traversal (h : list lk) : bool := match h with [KListOp "fetchNextNode" l] => String.eqb l R | _ => false end.
@@ -397,7 +412,7 @@ Fixpoint lin (fuel : nat) (fns : list lkfn) (args : list karg) (path : list bool
       | KListOp "remove" _ => continue_with [LRemove] path
       | KGlobal _ "count" false => continue_with [LCount] path
       | KLoop h _ => if is_traversal h then continue_with [LLookup] path else None
-      | KExt _ | KLabel _ | KMutexInit _ | KAtfork _ _ _ => continue_with [] path
+      | KExt _ | KLabel _ | KMutexInit _ | KMutexType _ _ | KAtfork _ _ _ => continue_with [] path
       | KCall f cargs =>
         match find_fn fns f with
         | Some fn => match lin fuel' fns (map (subst_arg args) cargs) path (lk_body fn) with
@@ -638,3 +653,49 @@ Proof.
   { unfold lock_objects. apply in_map. apply filter_In. auto. }
   rewrite H1 in Hm. destruct Hm as [E|[]]. now symmetry.
 Qed.
+
+(** ** the repository mutex is of the recursive type: a thread that already owns it (an error reported from inside a lock window, a signal
+    handler that forks while its thread is inside one) gets through a second lock instead of blocking on itself *)
+Definition mutex_recursive (fns : list lkfn) : bool :=
+  match find_fn fns "snoopy_tsrm_init" with
+  | Some f => match norm (lk_body f) with
+              | KMutexType a ty :: KMutexInit m :: _ => String.eqb a "snoopy_tsrm_threadRepo_mutexAttr" && String.eqb ty "PTHREAD_MUTEX_RECURSIVE" && String.eqb m M
+              | _ => false
+              end
+  | None => false
+  end.
+
+(** ** libc functions with hidden process-wide state: a static result buffer or position shared by all threads (C09), guarded - if at all - by a
+    libc-internal lock that fork() neither takes nor resets, so that a child forked while another thread is inside one of them blocks in its own
+    call (C10).  No function that a wrapped call can reach may reference one of them. *)
+Definition hidden_state_libc : list string :=
+  ["getpwuid"; "getpwnam"; "getgrgid"; "getgrnam"; "getpwent"; "getgrent"; "setpwent"; "endpwent"; "setgrent"; "endgrent"; "getlogin"; "ttyname"; "cuserid";
+   "localtime"; "gmtime"; "ctime"; "asctime"; "strtok"; "strerror"; "strsignal"; "readdir";
+   "syslog"; "vsyslog"; "openlog"; "closelog"; "setlogmask";
+   "gethostbyname"; "gethostbyname2"; "gethostbyaddr"; "gethostent"; "getservbyname"; "getservbyport"; "getservent"; "getprotobyname"; "getprotobynumber"; "getnetbyname";
+   "inet_ntoa"; "ether_ntoa"; "ether_aton"; "crypt"; "tmpnam"; "tempnam"; "mktemp"; "ptsname"; "getutent"; "getutid"; "getutline"; "pututline";
+   "rand"; "srand"; "random"; "srandom"; "drand48"; "lrand48"; "mrand48"; "ecvt"; "fcvt"; "gcvt"; "l64a"; "getopt"; "getdate"; "hsearch"; "nl_langinfo";
+   "setlocale"; "setenv"; "putenv"; "unsetenv"; "clearenv"; "getmntent"; "fgetgrent"; "fgetpwent"; "getspnam"; "getspent"; "basename_r_unsafe"].
+Definition hidden_state_calls (refs : list (string * list string)) (reach : list string) : list string :=
+  flat_map (fun e => if str_in (fst e) reach
+                     then map (fun f => (fst e ++ " -> " ++ f)%string) (filter (fun f => str_in f hidden_state_libc) (snd e))
+                     else []) refs.
+Definition libc_calls_reentrant (refs : list (string * list string)) (reach : list string) : bool :=
+  match hidden_state_calls refs reach with [] => true | _ => false end.
+Lemma libc_calls_reentrant_spec refs reach : libc_calls_reentrant refs reach = true ->
+  forall f callees g, In (f, callees) refs -> str_in f reach = true -> In g callees -> str_in g hidden_state_libc = false.
+Proof.
+  unfold libc_calls_reentrant, hidden_state_calls. intros H f callees g Hin Hr Hg.
+  destruct (flat_map _ refs) eqn:F; [|discriminate].
+  pose proof (flat_map_nil_inv _ _ F (f, callees) Hin) as E. cbv beta in E. cbn [fst snd] in E. rewrite Hr in E.
+  destruct (str_in g hidden_state_libc) eqn:Eg; [|reflexivity]. exfalso.
+  assert (In g (filter (fun f0 => str_in f0 hidden_state_libc) callees)) as Hf by (apply filter_In; auto).
+  apply (in_map (fun f0 => (f ++ " -> " ++ f0)%string)) in Hf. rewrite E in Hf. contradiction.
+Qed.
+
+(** libc functions that are reentrant but take libc's timezone lock, which fork() does not reset: a wrapped call may reach them only through
+    a guard ([libc_guards]).  [tz_unguarded] lists the reachable callers that are not guards. *)
+Definition tz_lock_calls : list string := ["localtime_r"; "mktime"; "tzset"; "ctime_r"; "timelocal"; "localtime_rz"; "strptime"].
+Definition tz_unguarded (fns : list lkfn) (refs : list (string * list string)) (reach : list string) : list string :=
+  flat_map (fun e => if str_in (fst e) reach && existsb (fun f => str_in f tz_lock_calls) (snd e) && negb (str_in (fst e) (guard_names fns))
+                     then [fst e] else []) refs.
